@@ -88,3 +88,20 @@ package openapi3
 //@   ensures [exactly-the-declared] fresh(result) && result != nil && (forall m string :: has(result, m) <==> (knownMethod(m) && opOf(pathItem, m) != nil))
 //@   ensures [values] forall m string :: has(result, m) ==> result[m] == opOf(pathItem, m)
 //@   tag C09
+
+// ---- C09: matching a raw URL against a server URL. What is handed to the path matcher is what is
+// left of the URL after the server part: a suffix of the URL that starts with "/" (or "/" itself
+// when nothing is left) - never text made up from a URL that only shares a prefix with the server.
+// For a server URL without variables the match is exact: the URL starts with the server URL (less one
+// trailing slash) and continues with "/" or ends there.
+//@ spec serverBase(u string) string := hasSuffix(u, "/") ? substr(u, 0, len(u) - 1) : u
+//@ func (Server).MatchRawURL
+//@   modifies nothing
+//@   loop 0 invariant hasSuffix(entry(input), input)
+//@   loop 0 invariant !contains(server.URL, "{") ==> hasSuffix(server.URL, pattern) && len(server.URL) - len(pattern) == len(entry(input)) - len(input) && substr(server.URL, 0, len(server.URL) - len(pattern)) == substr(entry(input), 0, len(server.URL) - len(pattern))
+//@   loop 0 invariant !contains(server.URL, "{") && hasSuffix(server.URL, "/") ==> len(pattern) >= 1
+//@   ensures [literal-server] !contains(server.URL, "{") ==> (result.2 <==> (hasPrefix(old(input), serverBase(server.URL)) && (len(old(input)) == len(serverBase(server.URL)) || substr(old(input), len(serverBase(server.URL)), 1) == "/")))
+//@   ensures [remaining-is-a-path] result.2 ==> hasPrefix(result.1, "/")
+//@   ensures [remaining-is-the-unmatched-rest] result.2 ==> (hasSuffix(old(input), result.1) || result.1 == "/")
+//@   ensures [no-match-carries-nothing] !result.2 ==> result.1 == "" && len(result.0) == 0
+//@   tag C09 C10
